@@ -355,7 +355,9 @@ func (self Value) Interface(opts *Options) (interface{}, error) {
 		return self.binary()
 	case proto.STRING:
 		if opts.CastStringAsBinary {
-			return self.binary()
+			// (binary() only takes BYTE nodes; a string has the same length-delimited encoding)
+			v, _, _ := protowire.BinaryDecoder{}.DecodeBytes(rt.BytesFrom(self.v, int(self.l), int(self.l)))
+			return v, nil
 		}
 		return self.string()
 	case proto.ENUM:
